@@ -6,7 +6,7 @@
 (* equations; encodings against canonicity (a decoder accepts exactly the    *)
 (* integers below the modulus); reduction from uniform bytes against the     *)
 (* little-endian integer modulo m.                                          *)
-EXTENDS Curve, Json, IOUtils, Sequences, TLC
+EXTENDS Tower, Json, IOUtils, Sequences, TLC
 
 Rec == ndJsonDeserialize(IOEnv.TRACE)
 VARIABLE l
@@ -14,26 +14,13 @@ Ev == Rec[l]
 Has(e, f) == f \in DOMAIN e
 
 ModulusOf(f) ==
-  CASE f = "bls_fq" -> BlsR [] f \in {"bls_fp", "bls_fp2"} -> BlsP [] f = "jub_fr" -> JubR
+  CASE f = "bls_fq" -> BlsR [] f \in {"bls_fp", "bls_fp2", "bls_fp6", "bls_fp12"} -> BlsP [] f = "jub_fr" -> JubR
     [] f = "secp_fp" -> SecpP [] f = "secp_fq" -> SecpN [] f = "c25519_fp" -> C25519P [] f = "c25519_scalar" -> C25519L
-    [] f \in {"bn_fq", "bn_fq2"} -> Bn254P [] f = "bn_fr" -> Bn254R
+    [] f \in {"bn_fq", "bn_fq2", "bn_fq6", "bn_fq12"} -> Bn254P [] f = "bn_fr" -> Bn254R
 IsQuad(f) == f \in {"bls_fp2", "bn_fq2"}
-
-\* ---- quadratic extension u^2 = -1 ----------------------------------------
-QAdd(a, b, m) == <<AddM(a[1], b[1], m), AddM(a[2], b[2], m)>>
-QSub(a, b, m) == <<SubM(a[1], b[1], m), SubM(a[2], b[2], m)>>
-QNeg(a, m) == <<NegM(a[1], m), NegM(a[2], m)>>
-QMul(a, b, m) == <<SubM(MulM(a[1], b[1], m), MulM(a[2], b[2], m), m), AddM(MulM(a[1], b[2], m), MulM(a[2], b[1], m), m)>>
-QNorm(a, m) == AddM(MulM(a[1], a[1], m), MulM(a[2], a[2], m), m)
-QZero == <<Zero, Zero>>
-QOne == <<One, Zero>>
-RECURSIVE QPowI(_, _, _)
-QPowI(a, e, m) == IF e = <<>> THEN QOne
-                  ELSE LET h == QPowI(a, Half(e), m) IN
-                       IF Bit(e, 0) = 0 THEN QMul(h, h, m) ELSE QMul(QMul(h, h, m), a, m)
-\* a is a square in F_p^2 iff its norm is a square in F_p (p = 3 mod 4)
-QIsSquare(a, m) == a = QZero \/ IsSquareM(QNorm(a, m), m)
-QRed(a, m) == <<Rem(a[1], m), Rem(a[2], m)>>
+IsSext(f) == f \in {"bls_fp6", "bn_fq6"}
+IsDuo(f) == f \in {"bls_fp12", "bn_fq12"}
+TowerOf(f) == IF f \in {"bls_fp2", "bls_fp6", "bls_fp12"} THEN BlsT ELSE BnT
 
 Rev(s) == [i \in 1..Len(s) |-> s[Len(s) + 1 - i]]
 Opt(o) == IF o.some THEN <<"some", o.v>> ELSE <<"none", <<>>>>
@@ -91,8 +78,83 @@ QuadOK(e, m) ==
        [] e.op = "pow" -> e.out = QPowI(x, e.ins[2], m)
        [] e.op = "invert" -> IF x = QZero THEN ~e.out.some ELSE e.out.some /\ QMul(x, e.out.v, m) = QOne
        [] e.op = "sqrt" -> IF QIsSquare(x, m) THEN e.out.some /\ QMul(e.out.v, e.out.v, m) = x ELSE ~e.out.some
+       [] e.op = "frobenius" -> e.out = QFrob(x, e.k, m)
+       [] e.op = "conjugate" -> e.out = QConj(x, m)
+       [] e.op = "norm" -> e.out = QNorm(x, m)
+       [] e.op = "mul_by_nonresidue" -> e.out = QMul(TowerOf(e.field).xi, x, m)
+       [] e.op = "is_square" -> e.out = QIsSquare(x, m)
+       [] e.op = "lex_largest" -> e.out = QLexLargest(x, m)
+       \* c1 is compared first, then c0
+       [] e.op = "cmp" -> e.out = (IF x = y THEN 0 ELSE IF Lt(x[2], y[2]) \/ (x[2] = y[2] /\ Lt(x[1], y[1])) THEN 0 - 1 ELSE 1)
+       \* 2 x size bytes: c0 then c1, little-endian; a checked decoder accepts exactly the canonical pairs
+       [] e.op = "bytes_roundtrip" -> e.out.some /\ e.out.v = x /\ <<Trim(e.out.c0), Trim(e.out.c1)>> = x
+       [] e.op \in {"from_bytes", "from_repr"} ->
+            IF Lt(e.ins[1][1], m) /\ Lt(e.ins[1][2], m) THEN e.out.some /\ e.out.v = e.ins[1] ELSE ~e.out.some
+       \* 96 uniform bytes: c0 from the LAST 48 bytes, c1 from the first 48, each little-endian modulo m
+       [] e.op = "from_uniform_bytes" ->
+            e.out = <<Rem(Trim(SubSeq(e.ins[1], 49, 96)), m), Rem(Trim(SubSeq(e.ins[1], 1, 48)), m)>>
+       [] e.op = "constants" ->
+            /\ e.out.zero = QZero /\ e.out.one = QOne
+            /\ e.out.has_zeta => (e.out.zeta # QOne /\ QMul(QMul(e.out.zeta, e.out.zeta, m), e.out.zeta, m) = QOne)
+            /\ e.out.has_two_inv => QMul(e.out.two_inv, <<OfInt(2), Zero>>, m) = QOne
 
-FOK(e) == e.status = "ok" /\ (IF IsQuad(e.field) THEN QuadOK(e, ModulusOf(e.field)) ELSE PrimeOK(e, ModulusOf(e.field)))
+       \* the PrimeField constants of a quadratic extension: a root of unity of order exactly 2^S with its inverse,
+       \* delta = generator^(2^S), generator not a square
+       [] e.op = "prime_constants" ->
+            LET c == e.out IN
+            /\ QPowI(c.root_of_unity, Pow2(c.s), m) = QOne
+            /\ (c.s >= 1 => QPowI(c.root_of_unity, Pow2(c.s - 1), m) # QOne)
+            /\ QMul(c.root_of_unity, c.root_of_unity_inv, m) = QOne
+            /\ c.delta = QPowI(c.generator, Pow2(c.s), m)
+            /\ ~QIsSquare(c.generator, m)
+
+\* Fp6 and Fp12: every operation against the schoolbook arithmetic of Tower.tla
+SextOK(e, T) ==
+  LET x == SRed(e.ins[1], T)
+      y == IF Len(e.ins) >= 2 /\ e.op \notin {"pow", "mul_by_1", "mul_by_01"} THEN SRed(e.ins[2], T) ELSE SZero
+  IN CASE e.op = "embed" -> e.out = x
+       [] e.op = "add" -> e.out = SAdd(x, y, T)
+       [] e.op = "sub" -> e.out = SSub(x, y, T)
+       [] e.op = "mul" -> e.out = SMul(x, y, T)
+       [] e.op = "neg" -> e.out = SNeg(x, T)
+       [] e.op = "square" -> e.out = SMul(x, x, T)
+       [] e.op = "double" -> e.out = SAdd(x, x, T)
+       [] e.op = "eq" -> e.out = (x = y)
+       [] e.op = "is_zero" -> e.out = (x = SZero)
+       [] e.op = "invert" -> IF x = SZero THEN ~e.out.some ELSE e.out.some /\ SMul(x, e.out.v, T) = SOne
+       [] e.op = "frobenius" -> e.out = SFrob(x, e.k, T)
+       [] e.op = "mul_by_nonresidue" -> e.out = SMulV(x, T)
+       [] e.op = "mul_by_1" -> e.out = SMul(x, <<QZero, QRed(e.ins[2], T.m), QZero>>, T)
+       [] e.op = "mul_by_01" -> e.out = SMul(x, <<QRed(e.ins[2], T.m), QRed(e.ins[3], T.m), QZero>>, T)
+       [] e.op = "constants" -> e.out.zero = SZero /\ e.out.one = SOne
+
+DuoOK(e, T) ==
+  LET x == DRed(e.ins[1], T)
+      y == IF Len(e.ins) >= 2 /\ e.op \notin {"pow", "mul_by_014", "mul_by_034"} THEN DRed(e.ins[2], T) ELSE DZero
+      q(i) == QRed(e.ins[i], T.m)
+  IN CASE e.op = "embed" -> e.out = x
+       [] e.op = "add" -> e.out = DAdd(x, y, T)
+       [] e.op = "sub" -> e.out = DSub(x, y, T)
+       [] e.op = "mul" -> e.out = DMul(x, y, T)
+       [] e.op = "neg" -> e.out = DNeg(x, T)
+       [] e.op = "square" -> e.out = DMul(x, x, T)
+       [] e.op = "double" -> e.out = DAdd(x, x, T)
+       [] e.op = "eq" -> e.out = (x = y)
+       [] e.op = "is_zero" -> e.out = (x = DZero)
+       [] e.op = "invert" -> IF x = DZero THEN ~e.out.some ELSE e.out.some /\ DMul(x, e.out.v, T) = DOne
+       [] e.op = "pow" -> e.out = DPowI(x, e.ins[2], T)
+       [] e.op = "frobenius" -> e.out = DFrob(x, e.k, T)
+       [] e.op = "conjugate" -> e.out = DConj(x, T)
+       [] e.op = "mul_by_014" -> e.out = DMul(x, Sparse014(q(2), q(3), q(4)), T)
+       [] e.op = "mul_by_034" -> e.out = DMul(x, Sparse034(q(2), q(3), q(4)), T)
+       \* squaring specialised to the cyclotomic subgroup: on its members it is the square
+       [] e.op = "cyclotomic_square" -> InCyclo(x, T) /\ e.out = DMul(x, x, T)
+       [] e.op = "constants" -> e.out.zero = DZero /\ e.out.one = DOne
+
+FOK(e) == e.status = "ok" /\ (IF IsQuad(e.field) THEN QuadOK(e, ModulusOf(e.field))
+                               ELSE IF IsSext(e.field) THEN SextOK(e, TowerOf(e.field))
+                               ELSE IF IsDuo(e.field) THEN DuoOK(e, TowerOf(e.field))
+                               ELSE PrimeOK(e, ModulusOf(e.field)))
 
 TInitL == l = 1
 THeader == l <= Len(Rec) /\ Ev.ev = "header" /\ l' = l + 1
